@@ -586,10 +586,20 @@ class SolverIR:
         body_state.env.update(env_binds)
         # at the head of an arbitrary iteration nothing is known about indexed element attributes
         body_state.heap = {k: v for k, v in body_state.heap.items() if '[' not in k[0]}
+        havoc = []
         for nme in assigned_names:
             if nme in st.env and nme not in env_binds and isinstance(st.env[nme], (N, Q, Dyn)):
                 L.carries[nme] = st.env[nme]
                 body_state.env[nme] = _carry_like(st.env[nme], f'carry{lid}:{nme}')
+            elif nme in st.env and nme not in env_binds:
+                # a local of another type (a flag, None, a string ...) that some iteration may rebind: its value at the head of an
+                # arbitrary iteration and after the loop is not the value before the loop
+                from .sx import Bv as _Bv, Bsym as _Bsym, G as _G
+                havoc.append(nme)
+                if isinstance(st.env[nme], (_Bv, _Bsym)):
+                    body_state.env[nme] = _Bsym(_G('truth', (f'carry{lid}:{nme}',)))
+                else:
+                    body_state.env[nme] = Unk(f'carry{lid}:{nme}')
         for fld in assigned_fields:
             key = ('self', fld)
             if key in st.heap and isinstance(st.heap[key], (N, Q, Dyn)):
@@ -628,6 +638,9 @@ class SolverIR:
         for fld in maybe:
             if fld not in L.carries:
                 out.bump('self', fld)
+        for nme in havoc:
+            from .sx import Bv as _Bv, Bsym as _Bsym, G as _G
+            out.env[nme] = _Bsym(_G('truth', (f'fold{lid}:{nme}',))) if isinstance(st.env[nme], (_Bv, _Bsym)) else Unk(f'fold{lid}:{nme}')
         return [out]
 
     # ---- entry
